@@ -379,12 +379,14 @@ impl DeviceControl for ControlHandle {
     fn read(&mut self, mut address: u64, buf: &mut [u8]) -> ControlResult<()> {
         unwrap_or_log!(self.assert_open());
 
+        // The maximum acknowledge length advertised by the device must be able to carry data.
+        let maximum_ack_length = self.config.maximum_ack_length as usize;
+        unwrap_or_log!(cmd::ReadMem::new(address, 0).chunks(maximum_ack_length));
+
         // Chunks buffer if buffer length is larger than maximum read length calculated from
         // maximum ack length.
-        for buf_chunk in buf.chunks_mut(cmd::ReadMem::maximum_read_length(
-            self.config.maximum_ack_length as usize,
-        ) as usize)
-        {
+        let maximum_read_length = cmd::ReadMem::maximum_read_length(maximum_ack_length) as usize;
+        for buf_chunk in buf.chunks_mut(maximum_read_length) {
             let read_len: u16 = buf_chunk.len().try_into().unwrap();
 
             let cmd = cmd::ReadMem::new(address, read_len);
